@@ -95,7 +95,19 @@ def run(tier):
             continue
         got = [s["line"] for s in r["stops"]]
         stops_total += len(got)
-        issued = [row["cmds"][i] if i < len(row["cmds"]) else "continue" for i in range(len(got))]
+        if any(not e["as_expected"] for e in r.get("evals", [])):
+            verdict.disagree(dict(base, what="evaluate_answer"), dict(case, evals=r["evals"]))
+            continue
+        # the commands issued at the stops, in order: evaluate requests are served while paused, then
+        # one resuming command per stop (continue once the list is exhausted)
+        issued = []
+        qi = 0
+        for _ in range(len(got)):
+            while qi < len(row["cmds"]) and row["cmds"][qi].startswith("eval_"):
+                issued.append(row["cmds"][qi])
+                qi += 1
+            issued.append(row["cmds"][qi] if qi < len(row["cmds"]) else "continue")
+            qi += 1
         if any(c != "continue" for c in issued):
             with_steps += 1
         k = key(row["prog"], row["bps"], issued)
